@@ -54,6 +54,14 @@ class C01(Monitor):
             kind = self._known_cause(w, s, 'receiver-raised')
             self.fail(kind, '%s@%s' % (s.exc['type'], s.exc['where']), s, units=[u.brief() for u in s.units][:4])
             return
+        if len(s.units) > 1 and any(u.type == C.GOAWAY for u in s.units) and \
+                any(u.type == C.PUSH_PROMISE and s.pre[i] is not None and s.pre[i].state == 'closed'
+                    for i, u in enumerate(s.units)):
+            # A push refused in this very call (parent reset by the receiver): the RST_STREAM that says so is discarded
+            # with all other pending output by the GOAWAY behind it, so what became of the promised stream cannot be
+            # read off the wire.  The connection is over anyway.
+            self.probe('unjudged_step')
+            return
         expected = []
         judged = True
         view = self.view[y]
